@@ -255,7 +255,10 @@ def job_text(kind, nsym=3, small_table=True):
 def jobs(tier):
     js = []
     js.append(Job("emitted_text_hier_ios_0sym", job_text, dict(kind="hier_ios", nsym=0, small_table=False), cost=5, timeout_s=600))
-    js.append(Job("emitted_text_hier_ios_1sym_small_table", job_text, dict(kind="hier_ios", nsym=1, small_table=True), cost=30, timeout_s=1500))
+    if tier == "thorough":
+        # (quick tier: with solver seed 1 one string query of this job went unknown after 300 s on the reference run, with other seeds it takes 30 s;
+        #  an inconclusive quick check is worth nothing, so the symbolic-port variant runs in the thorough tier only)
+        js.append(Job("emitted_text_hier_ios_1sym_small_table", job_text, dict(kind="hier_ios", nsym=1, small_table=True), cost=30, timeout_s=1500))
     for kind in ("mem_vs_signal", "instance_vs_signal", "two_memories"):
         js.append(Job("emitted_text_%s_2sym" % kind, job_text, dict(kind=kind, nsym=2, small_table=False), cost=60, timeout_s=3400))
         if kind != "mem_vs_signal":      # (3 symbolic names among the 15 declarations of mem_vs_signal did not finish in 75 min: not part of any tier)
